@@ -633,3 +633,128 @@ def alt_jobs(U):
         jobs.append({"tid": "%s.alt%d" % (ty, k), "ty": ty, "cls": cls, "code": code, "text": text, "names": names,
                      "what": "alt", "trel": False})
     return jobs
+
+
+# ---------------------------------------------------------------------------- fresh-interpreter scenario
+# The registry of dns.rdata (type -> implementing class) is process-global and filled lazily, so
+# the ORDER of first lookups is an input.  "foreign-first": the first time a type is seen in the
+# process it is seen in a class that has no implementation for it (HS, CLASS32: only the RFC 3597
+# generic form exists there), then the ordinary round-trip events in its home class;
+# "home-first" is the control.  Each order runs in a NEW interpreter (not a fork: the parent has
+# looked every type up already).
+FOREIGN_CLASSES = (4, 32)
+
+
+def fresh_items(U, wire_jobs, per_type=4):
+    """per implemented type: the base vector's job and (text, value) pairs of its first few accepted
+    vectors, the texts produced HERE (main process) by to_text() of the decoded record"""
+    items = {}
+    for j in wire_jobs:
+        if j["what"] in ("unknown", "random"):
+            continue
+        it = items.setdefault(j["ty"], {"ty": j["ty"], "cls": j["cls"], "code": j["code"], "job": None, "texts": []})
+        if j["what"] == "base":
+            it["job"] = j
+        if len(it["texts"]) < per_type:
+            try:
+                rd = dns.rdata.from_wire(j["cls"], j["code"], bytes(j["wire"]), 0, len(j["wire"]))
+                it["texts"].append({"txt": rd.to_text(), "w": list(rd.to_wire()), "vec": j["vec"]})
+            except Exception:  # noqa: BLE001
+                pass
+    return [it for it in items.values() if it["job"] is not None]
+
+
+def foreign_events(it):
+    """the type's RDATA, written in the RFC 3597 generic form, in classes without an implementation"""
+    w = bytes(it["job"]["wire"])
+    out = []
+    for c in FOREIGN_CLASSES:
+        ev = {"op": "foreign", "cls": c, "w": list(w), "parse": "ok", "wire1": [-1], "t2": "skip", "wire2": [-1],
+              "wirew": [-1]}
+        try:
+            rd = dns.rdata.from_text(c, it["code"], "\\# %d %s" % (len(w), w.hex()))
+            ev["wire1"] = list(rd.to_wire())
+        except Exception as e:  # noqa: BLE001
+            _exc(ev, "parse", e)
+        else:
+            try:
+                t = rd.to_text()
+                ev["t2"] = "ok"
+                ev["wire2"] = list(dns.rdata.from_text(c, it["code"], t).to_wire())
+            except Exception as e:  # noqa: BLE001
+                ev["t2"] = ev["t2"] if ev["t2"] == "ok" else "err"
+                ev["t2x"] = type(e).__name__
+        try:
+            ev["wirew"] = list(dns.rdata.from_wire(c, it["code"], w, 0, len(w)).to_wire())
+        except Exception as e:  # noqa: BLE001
+            ev["wirewx"] = type(e).__name__
+        out.append(ev)
+    return out
+
+
+def ktext_events(it):
+    """texts known to denote a value (produced by to_text() in the main process) offered to from_text"""
+    out = []
+    for x in it["texts"]:
+        ev = {"op": "ktext", "txt": x["txt"][:300], "w": x["w"], "vec": x["vec"], "parse": "ok", "enc": "skip", "wire1": [-1], "t2": "skip"}
+        try:
+            rd = dns.rdata.from_text(it["cls"], it["code"], x["txt"])
+        except Exception as e:  # noqa: BLE001
+            _exc(ev, "parse", e)
+            out.append(ev)
+            continue
+        try:
+            ev["wire1"] = list(rd.to_wire())
+            ev["enc"] = "ok"
+        except Exception as e:  # noqa: BLE001
+            _exc(ev, "enc", e)
+        try:
+            rd.to_text()
+            ev["t2"] = "ok"
+        except Exception as e:  # noqa: BLE001
+            _exc(ev, "t2", e)
+        out.append(ev)
+    return out
+
+
+def fresh_traces(order, items, U):
+    """runs INSIDE the fresh interpreter"""
+    set_universe(U)
+    out = []
+    for it in items:
+        pre = "fresh:%s:%s" % (order, it["ty"])
+
+        def foreign():
+            return [{"tid": pre + ":foreign", "ty": it["ty"], "kind": "fresh", "what": order, "ev": foreign_events(it)}]
+
+        def home():
+            trs = [{"tid": pre + ":ktext", "ty": it["ty"], "kind": "fresh", "what": order, "ev": ktext_events(it)}]
+            for part in ("rt", "gen"):
+                tr = wire_trace(U, dict(it["job"], part=part), "none")
+                tr["tid"] = pre + ":" + part
+                tr["what"] = order
+                trs.append(tr)
+            return trs
+        try:
+            out += (foreign() + home()) if order == "foreign-first" else (home() + foreign())
+        except Exception as e:  # noqa: BLE001
+            out.append({"tid": pre + ":crash", "ty": it["ty"], "kind": "crash", "ev": [{"op": "driver-error", "exc": repr(e)}]})
+    return out
+
+
+def run_fresh(order, items, U):
+    """fresh_traces in a NEW interpreter; a failing child becomes an event nobody matches"""
+    import subprocess
+    import sys
+    env = dict(os.environ)
+    env["PYTHONHASHSEED"] = "0"
+    env["PYTHONDONTWRITEBYTECODE"] = "1"
+    code = ("import sys, json; sys.path.insert(0, %r); from drivers import c05_text as d; j = json.load(sys.stdin); "
+            "json.dump(d.fresh_traces(j['order'], j['items'], j['U']), sys.stdout)" % core.ROOT)
+    try:
+        p = subprocess.run([sys.executable, "-c", code], input=json.dumps({"order": order, "items": items, "U": U}),
+                           capture_output=True, text=True, env=env, cwd=core.ROOT, timeout=900)
+        return json.loads(p.stdout)
+    except Exception as e:  # noqa: BLE001
+        return [{"tid": "fresh:%s:crash" % order, "ty": "?", "kind": "crash",
+                 "ev": [{"op": "driver-error", "exc": repr(e)[:300]}]}]
